@@ -131,6 +131,28 @@ func (c *cmp) same(x, y ssa.Value) bool {
 	if c.resA != nil {
 		x, y = c.resA(x), c.resB(y)
 	}
+	// a change of type that changes no bits (uint64(uint1(x)): uint1 is declared as uint64 in this output) may be
+	// written on one side and left out on the other
+	for {
+		ct, ok := x.(*ssa.ChangeType)
+		if !ok || !sameBasic(ct.Type(), ct.X.Type()) {
+			break
+		}
+		x = ct.X
+		if c.resA != nil {
+			x = c.resA(x)
+		}
+	}
+	for {
+		ct, ok := y.(*ssa.ChangeType)
+		if !ok || !sameBasic(ct.Type(), ct.X.Type()) {
+			break
+		}
+		y = ct.X
+		if c.resB != nil {
+			y = c.resB(y)
+		}
+	}
 	if c.subOpp {
 		if ld, ok := x.(*ssa.UnOp); ok && ld.Op == token.MUL {
 			if ia, ok := ld.X.(*ssa.IndexAddr); ok {
